@@ -28,6 +28,10 @@ package main
 
 import (
 	"fmt"
+	"sync"
+
+	"github.com/tink-crypto/tink-go/v2/key"
+	"github.com/tink-crypto/tink-go/v2/verifbridge/vb"
 
 	"github.com/tink-crypto/tink-go/v2/keyset"
 	tinkpb "github.com/tink-crypto/tink-go/v2/proto/tink_go_proto"
@@ -71,13 +75,28 @@ func primitivesSection(x *h.X) {
 		x.Fail("construct", "%s rep %d: %v", src.name, rep, err)
 		return
 	}
-	t := newTracker(x, fmt.Sprintf("%s [%v]", desc, src.class))
+	lens, spares := ref.GuardLens, ref.GuardSpares
+	if x.Thorough() {
+		lens, spares = thoroughLens, thoroughSpares
+	}
+	if src.slow {
+		// SLH-DSA signing costs 40 ms .. seconds: every layout, two lengths
+		lens = []int{0, 33}
+		if !x.Thorough() {
+			spares = []int{1, 64}
+		}
+	}
+	primitivesCase(x, src.class, src.legacy, priv, desc, []int{adj}, lens, spares)
+}
+
+func primitivesCase(x *h.X, class keycat.Class, legacy bool, priv *protoKey, desc string, adjs, lens, spares []int) {
+	t := newTracker(x, fmt.Sprintf("%s [%v]", desc, class))
 	twinH, err := twinHandle(priv)
 	if err != nil {
 		x.Fail("construct", "%s: twin: %v", t.what, err)
 		return
 	}
-	twin, err := buildPrims(src.class, twinH)
+	twin, err := buildPrims(class, twinH)
 	if err != nil {
 		x.Fail("construct", "%s: twin primitives: %v", t.what, err)
 		return
@@ -101,24 +120,14 @@ func primitivesSection(x *h.X) {
 		x.Fail("construct", "%s: %v", t.what, err)
 		return
 	}
-	before, err := buildPrims(src.class, kh)
+	before, err := buildPrims(class, kh)
 	if err != nil {
 		x.Fail("construct", "%s: primitives: %v", t.what, err)
 		return
 	}
 	x.NonTrivial()
-	x.Outcome(fmt.Sprintf("%v/legacy=%v", src.class, src.legacy))
-	d := &driver{t: t, p: before, tw: twin, legacy: src.legacy, lens: ref.GuardLens, spares: ref.GuardSpares, adj: []int{adj}, slow: src.slow}
-	if x.Thorough() {
-		d.lens, d.spares = thoroughLens, thoroughSpares
-	}
-	if src.slow {
-		// SLH-DSA signing costs 40 ms .. seconds: every layout, two lengths
-		d.lens = []int{0, 33}
-		if !x.Thorough() {
-			d.spares = []int{1, 64}
-		}
-	}
+	x.Outcome(fmt.Sprintf("%v/legacy=%v", class, legacy))
+	d := &driver{t: t, p: before, tw: twin, legacy: legacy, lens: lens, spares: spares, adj: adjs}
 	d.run()
 	t.flipAll()
 	scribble(ks)
@@ -129,7 +138,7 @@ func primitivesSection(x *h.X) {
 	if err := agree(before, twin); err != nil {
 		x.Fail("primitive-changed:primitive-calls", "%s: primitive used for the calls disagrees with the twin after all call inputs/outputs were overwritten: %v", t.what, err)
 	}
-	after, err := buildPrims(src.class, kh)
+	after, err := buildPrims(class, kh)
 	if err != nil {
 		x.Fail("primitive-changed:primitive-calls", "%s: primitive cannot be built after the overwrite: %v", t.what, err)
 	} else if err := agree(after, twin); err != nil {
@@ -137,6 +146,87 @@ func primitivesSection(x *h.X) {
 	}
 	x.Count("returned-slices", t.nret)
 	x.Count("guarded-calls", len(t.sets))
+}
+
+// sweep (thorough tier): every VALID declared parameter point of every key type of the catalogue
+// (keycat's parameter domains: sizes, hashes, curves, KEM/KDF/AEAD ids, DEMs, encodings ...), one key
+// each, reduced length/spare domains, all three adjacency modes.
+var (
+	sweepMu    sync.Mutex
+	sweepCache = map[string][]*keycat.KeyCase{}
+)
+
+func sweepCases(f *keycat.Family) []*keycat.KeyCase {
+	sweepMu.Lock()
+	defer sweepMu.Unlock()
+	if c, ok := sweepCache[f.Name]; ok {
+		return c
+	}
+	var out []*keycat.KeyCase
+	f.Enum(false, keycat.Whole(), func(_ string, declared bool, v ref.KSVariant, p key.Parameters, err error) {
+		if err != nil || !declared {
+			return
+		}
+		ks, err := f.Keys(p, v, 0x01020304, false)
+		if err != nil || len(ks) == 0 {
+			return
+		}
+		if ks[0].Key != nil {
+			out = append(out, ks[0])
+		}
+	})
+	sweepCache[f.Name] = out
+	return out
+}
+
+func sweepFamilies() []*keycat.Family {
+	var out []*keycat.Family
+	for _, f := range keycat.Families() {
+		if f.Enum != nil && f.Keys != nil && f.Class != keycat.ClassNone {
+			out = append(out, f)
+		}
+	}
+	return out
+}
+
+func sweepSection(x *h.X) {
+	fams := sweepFamilies()
+	f := fams[x.Choose("family", len(fams))]
+	x.Label(f.Name)
+	cases := sweepCases(f)
+	if len(cases) == 0 {
+		return
+	}
+	kc := cases[x.Choose("param", len(cases))]
+	x.Label(kc.Desc)
+	kd, pt, kid, _, err := vb.SerializeKey(kc.Key)
+	if err != nil {
+		x.Fail("construct", "%s: SerializeKey: %v", kc.Desc, err)
+		return
+	}
+	priv := (&protoKey{kd, pt, kid}).clone()
+	if sp, ok := kc.P.(interface{ SegmentSizeInBytes() int32 }); ok && sp.SegmentSizeInBytes() > 1<<20 {
+		// every writer / reader allocates a segment buffer: gigabyte segments x 16 workers exceed the sandbox memory
+		x.Outcome("n/a:streaming-segment-over-1MiB")
+		return
+	}
+	// parameter points that are valid but not usable through the factories (non-recommended sizes,
+	// derived-key types without deriver ...) are outside the catalogue
+	if th, err := twinHandle(priv); err != nil {
+		x.Outcome("n/a:no-handle")
+		return
+	} else if ps, err := buildPrims(f.Class, th); err != nil {
+		x.Outcome("n/a:no-primitive-for-parameters")
+		return
+	} else if err := agree(ps, ps); err != nil {
+		x.Outcome("n/a:primitive-unusable-for-parameters")
+		return
+	}
+	lens, spares := []int{1, 33}, []int{1, 64}
+	if f.Name == "SlhDsa" {
+		lens, spares = []int{33}, []int{1}
+	}
+	primitivesCase(x, f.Class, false, priv, kc.Desc, []int{0, 1, 2}, lens, spares)
 }
 
 // handlesSection: keyset construction paths.
@@ -185,5 +275,6 @@ func main() {
 			{Name: "keys", Body: keysSection, Bound: -1},
 			{Name: "secretdata", Body: secretdataSection, Bound: -1},
 			{Name: "subtle", Body: subtleSection, Bound: -1},
+			{Name: "parameter-sweep", Body: sweepSection, Bound: -1, Tiers: "thorough"},
 		})
 }
